@@ -19,6 +19,8 @@
 using namespace stir;
 using namespace c05;
 
+namespace c05lm {
+
 typedef PoissonLogLikelihoodWithLinearModelForMeanAndListModeDataWithProjMatrixByBin<Img> LMLL;
 class LmOF : public LMLL {
 public:
@@ -128,11 +130,10 @@ static void run(vh::Trace& tr, const Sys& s, const Matrix& m, const Inst& in, co
     for (int i = 0; i < 5000; ++i) if (std::remove((scratch + "/my_CACHE" + std::to_string(i) + ".bin").c_str()) != 0 && i > 2) break;
 }
 
-int main(int argc, char** argv) {
+// entry point (this file is #included by c05_poissonll.cxx: all C05 drivers form one translation unit, hence one
+// executable with complete dependency tracking)
+int entry(int argc, char** argv) {
   if (argc < 5) { fprintf(stderr, "usage: c05_listmode run <out.ndjson> <scratch-dir> <count>\n"); return 2; }
-  vh::quiet();
-  vh::install_terminate();
-  install_signal_handlers();
   const std::string scratch = argv[3];
   const long count = atol(argv[4]);
   vh::Trace tr(argv[2]);
@@ -168,3 +169,4 @@ int main(int argc, char** argv) {
   tr.emit(vh::Json("End").num("lines", tr.lines));
   return 0;
 }
+} // namespace c05lm
